@@ -47,6 +47,7 @@ class C18(core.Check):
     ID = 'C18'
     RUN_MODULE = 'Corr.Run_C18'
     RUN_FN = 'run_C18'
+    CASE_TYPE = 'c18case'
     RULE = ('operation histories (constructor, +, +=, -, -=, uniqueTags) on two TagCollection registers over a universe of '
             'elements arranged in a random forest; operands are element lists with repeats/absent elements or the other '
             'register; after every operation both registers are snapshotted (list order, uid set, membership, contains, '
